@@ -1282,7 +1282,8 @@ def _text_class(s):
 def small_tables_with_redundant_content(tier, rnd):
     """Small record tables decoded from BINARY data that is legal but redundant (what real fonts
     contain and builders would not write): VORG records equal to defaultVertOriginY, records in
-    every order of value, an empty record list; LTSH; gasp with repeated behaviours.  The model
+    every order of value, an empty record list; LTSH; gasp with repeated behaviours; meta with
+    empty data blocks.  The model
     decoded from the bytes is dumped (whole font, splitTables) and the import must
     compile to what the decoded model compiles to."""
     from fontTools.ttLib import newTable
@@ -1308,6 +1309,15 @@ def small_tables_with_redundant_content(tier, rnd):
         for ranges in ([(0xFFFF, 15)], [(8, 2), (16, 1), (0xFFFF, 3)], [(8, 1), (9, 1), (0xFFFF, 1)], [(7, 0), (0xFFFF, 0)]):
             for ver in (0, 1):
                 yield "gasp", (len(ranges), ver), struct.pack(">HH", ver, len(ranges)) + b"".join(struct.pack(">HH", p, b) for p, b in ranges)
+        # meta: data blocks of length 0 (legal), printable and binary, two maps pointing at the same block
+        for blocks in ([(b"appl", b"")], [(b"appl", b""), (b"bild", b"\x00\x01")], [(b"test", b"printable ascii")], [(b"aaaa", b"\xff"), (b"zzzz", b"")]):
+            first = 16 + 12 * len(blocks)
+            maps, body, off = b"", b"", first
+            for tag, blk in blocks:
+                maps += tag + struct.pack(">LL", off, len(blk))
+                body += blk
+                off += len(blk)
+            yield "meta", (len(blocks), min(len(b_) for _, b_ in blocks)), struct.pack(">LLLL", 1, 0, first, len(blocks)) + maps + body
 
     try:
         for tag, shape, data in cases():
